@@ -12,8 +12,8 @@ from vlib import Report, run_tlc, tlc_must_pass, xv_json, read_ndjson, workdir
 
 PID = "C04"
 # (handles, buffers, depth, patterns, start): histories from the empty store, and every operation on every small layout
-CONF = {"quick": [(3, 3, 3, "PatternsBig", "empty"), (3, 3, 4, "PatternsSmall", "empty"), (3, 3, 1, "PatternsSmall", "any")],
-        "thorough": [(3, 3, 4, "PatternsBig", "empty"), (3, 3, 3, "PatternsBig", "empty"), (3, 3, 1, "PatternsBig", "any")]}
+CONF = {"quick": [(3, 3, 3, "PatternsBig", "empty"), (3, 3, 1, "PatternsSmall", "any")],
+        "thorough": [(3, 3, 4, "PatternsBig", "empty"), (3, 3, 4, "PatternsSmall", "empty"), (3, 3, 1, "PatternsBig", "any")]}
 RANDOM = {"quick": (300, 30), "thorough": (5000, 40)}
 CFG = """SPECIFICATION Spec
 CONSTANTS
